@@ -64,6 +64,7 @@ def run(ctx):
                       "exactly on the true edge of the matching has_*")
     ctx.rule("R20.5", "consumers: a listing is read with tokio's read_dir of exactly the path that is then stripped from the entries; the CLI asks for the "
                       "types of the project origin (not of another directory) and keeps exactly the VCS ones")
+    ctx.also("R20.5", "every path through dirs::vcs_types goes through project_origins::types(origin); the CLI's candidate origins are origins(path) and, failing that, the working directory as given")
     ctx.rule("R20.4", "every path inserted into the result of origins() is the argument or Path::parent of such a path, "
                       "inserted only on the true edge of check_list for that same directory; the ancestor loop ends only "
                       "when parent() is None")
